@@ -25,7 +25,7 @@ B = [0, 1, 2, 3, 2**32 - 1, 2**32, 2**32 + 1, 2**63, 2**64 - 1, 2**64 - 2, 2**16
 
 def plan(tier, seed):
     n = 16 if tier == "quick" else 64
-    per = 1200 if tier == "quick" else 6000
+    per = 5000 if tier == "quick" else 20000
     return [{"seed": seed, "shard": i, "n": per, "tier": tier} for i in range(n)]
 
 
